@@ -178,6 +178,15 @@ class Runner(object):
             os.environ["TMPDIR"] = tmpd
             tempfile.tempdir = None
             tempfile.gettempdir()  # tempfile probes the directory by writing a file: do it before arming
+            if name != "ABS":
+                # call history: the same relative name was written before, from another working directory
+                decoy = os.path.join(sb, "decoy")
+                os.makedirs(os.path.join(decoy, "sub"))
+                os.chdir(decoy)
+                try:
+                    self.doc("small", "json", False)[0].serialize(name, format="json")
+                except Exception:
+                    pass
             os.chdir(work)
             dest_arg = os.path.join(work, "abs.dat") if name == "ABS" else name
             dest_rel = os.path.normpath(os.path.join("work", "abs.dat" if name == "ABS" else name))
